@@ -162,7 +162,19 @@ func checkHelper(c *Ctx, actor bool, owner vocab.IRI, mask int, valueForm bool) 
 		}
 		if mask&(1<<bit) != 0 {
 			e := vocab.IRI(fmt.Sprintf("https://elsewhere.example/explicit/%s/%d", n, mask))
-			v.FieldByName(fn).Set(reflect.ValueOf(e))
+			// the explicit property as a bare IRI, as an embedded collection object without members, or as one that has
+			// been appended to (its id is the answer in all three)
+			var val vocab.Item = e
+			switch (mask + bit) % 3 {
+			case 1:
+				val = &vocab.OrderedCollection{ID: e, Type: vocab.OrderedCollectionType}
+			case 2:
+				col := &vocab.Collection{ID: e, Type: vocab.CollectionType}
+				_ = col.Append(vocab.IRI("https://elsewhere.example/member/1"), &vocab.Object{ID: "https://elsewhere.example/member/2", Type: vocab.NoteType})
+				col.TotalItems = 2
+				val = col
+			}
+			v.FieldByName(fn).Set(reflect.ValueOf(val))
 			explicit[n] = e
 		}
 		bit++
